@@ -248,9 +248,71 @@ def strings(tier, seed, pvl):
         yield "corpus-splice", s
 
 
+def byte_inputs(rec, pvl, i, n, hb):
+    """Labels handed over as bytes / binary streams / files (the loaders'
+    own decoding runs first): a multi-byte character lying across a
+    read-block boundary, with and without undecodable data behind it, with
+    and without END.  Judged like every other load: a module, a LexerError
+    or a ParseError."""
+    import io
+    import tempfile
+    from .c09 import straddle_label, BLOCKS
+    LexerError, ParseError = pvl.exceptions.LexerError, pvl.exceptions.ParseError
+    k = 0
+    for block in BLOCKS:
+        for ch in ("\u00b0", "\u20ac", "\U0001F600"):
+            for shift in range(0, len(ch.encode("utf-8")) + 1):
+                label = straddle_label(block, ch, shift)
+                if label is None:
+                    continue
+                for tail in (b"", b"\n\xff\xfe\x00\x81", b"\xff", b"\n" + b"\x00" * 40 + b"\x9c\xff",
+                             b" \xc3", b"\n\xe2\x82"):
+                    for cut_end in (False, True):
+                        k += 1
+                        if k % n != i:
+                            continue
+                        hb.beat()
+                        data = (label[:-3] if cut_end else label) + tail
+                        for route in ("loads(bytes)", "load(binary stream)", "load(path)",
+                                      "new.loads(bytes)"):
+                            rec.count(f"byte_inputs[{route}]")
+                            rec.case(("bytes", block, ch, shift, tail, cut_end, route), True)
+                            try:
+                                with common.cpu_limit(30):
+                                    if route == "loads(bytes)":
+                                        pvl.loads(data)
+                                    elif route == "new.loads(bytes)":
+                                        import pvl.new as pn
+                                        pn.loads(data)
+                                    elif route == "load(binary stream)":
+                                        pvl.load(io.BytesIO(data))
+                                    else:
+                                        fd, path = tempfile.mkstemp(prefix="pvl-c06-", dir="/dev/shm")
+                                        try:
+                                            with os.fdopen(fd, "wb") as f:
+                                                f.write(data)
+                                            pvl.load(path)
+                                        finally:
+                                            os.unlink(path)
+                            except (LexerError, ParseError):
+                                pass
+                            except common.CaseTimeout:
+                                rec.inconc(f"CPU budget exceeded on byte input {k}")
+                            except Exception as e:
+                                rec.violation(CHECK, "default", "undocumented-exception-type",
+                                              {"family": "omni", "exc": type(e).__name__,
+                                               "where": innermost_pvl_frame(e), "route": route},
+                                              {"route": route, "block": block, "char": ch,
+                                               "bytes_before_boundary": shift,
+                                               "tail": repr(tail), "without_END": cut_end,
+                                               "data_length": len(data)},
+                                              f"{type(e).__name__}: {e}"[:300])
+
+
 def shard(i, n, tier, seed, rec, hb):
     pvl = common.import_pvl()
     holder = {}
+    byte_inputs(rec, pvl, i, n, hb)
     for idx, (src, text) in enumerate(strings(tier, seed, pvl)):
         if idx % n != i:
             continue
@@ -325,7 +387,7 @@ def finish_kwargs(rec, tier):
                                   "character-alphabet enumerations up to the "
                                   "length bound; truncations and splices are "
                                   "complete per label / sampled"},
-        required_counters=("strings[token-alphabet]", "strings[char-alphabet]",
+        required_counters=("byte_inputs[loads(bytes)]", "byte_inputs[load(path)]", "strings[token-alphabet]", "strings[char-alphabet]",
                            "strings[corpus-truncation]",
                            "strings[generated-truncation]",
                            "strings[corpus-splice]", "strings[value-context]",
